@@ -1305,11 +1305,17 @@ def c11(ctx):
 
     def calls(r):
         out = []
+        asked = []
         for t in r.traits:
+            if t == 'Into':
+                asked += [('Into:' + x, 'Into<T%s>' % x) for x in r.opts['targets']]
+            else:
+                asked.append((t, tpath[t]))
+        for t, path in asked:
             for a, an in ((True, 'P'), (False, 'No')):
                 for b, bn in ((True, 'P'), (False, 'No')):
                     out.append('rec_applies(&mut out, %d, "%s", %s, %s, impls!(%s<%s, %s>: %s));'
-                               % (r.idx, t, str(a).lower(), str(b).lower(), r.name, an, bn, tpath[t]))
+                               % (r.idx, t, str(a).lower(), str(b).lower(), r.name, an, bn, path))
         return out
 
     r_property(ctx, runs, ['Seal'], GenericRender, calls, [0, 1],
